@@ -185,6 +185,8 @@ pub struct Node {
     pub lo: BitSet,
     pub hi: BitSet,
     pub last_sv: Vec<(u64, u32)>,
+    /// the block store had a gap before the current transaction
+    pub had_skips: bool,
 }
 
 pub struct UidInfo {
@@ -199,6 +201,10 @@ pub struct UidInfo {
     pub eid: u32,
     /// lost in a crash before anybody else could have received it: as if it never happened
     pub void: bool,
+    /// what a receiver of this payload holds at least / at most: an update emitted while applying
+    /// remote data re-sends the blocks that transaction integrated (DESIGN.md §4.2)
+    pub carry_lo: BitSet,
+    pub carry_hi: BitSet,
 }
 
 pub struct RefState {
@@ -234,6 +240,9 @@ pub struct Stats {
     pub quiesce_rounds: u64,
     pub sim_ms: u64,
     pub special: u64,
+    /// named reach probes of the harness: how often a clause of an oracle was non-vacuously evaluated
+    #[serde(default)]
+    pub probes: std::collections::BTreeMap<String, u64>,
 }
 
 pub struct World {
@@ -264,6 +273,8 @@ pub struct World {
     pub verbose: bool,
     /// uids that have left their emitter (a message carrying them was delivered, or was built from a replica's state)
     pub exposed: BitSet,
+    /// set by `deliver` when the echo of the delivered message re-sends exactly its content
+    pub echo_ctx: Option<(BitSet, BitSet)>,
     pub cur_txn: Option<(usize, Option<String>)>,
 }
 
@@ -401,6 +412,10 @@ pub fn has_missing(doc: &Doc) -> bool {
 }
 
 impl World {
+    pub fn probe(&mut self, name: &str) {
+        *self.stats.probes.entry(name.to_string()).or_insert(0) += 1;
+    }
+
     pub fn new(cfg: RunCfg, gen_seed: u64, q_seed: u64) -> World {
         let mut nodes = Vec::new();
         for c in cfg.nodes.iter() {
@@ -414,6 +429,7 @@ impl World {
                 lo: BitSet::new(),
                 hi: BitSet::new(),
                 last_sv: vec![],
+                had_skips: false,
             });
         }
         let n = nodes.len();
@@ -441,6 +457,7 @@ impl World {
             gen_steps: 0,
             verbose: std::env::var("YSIM_VERBOSE").is_ok(),
             exposed: BitSet::new(),
+            echo_ctx: None,
             cur_txn: None,
         }
     }
@@ -568,6 +585,27 @@ impl World {
         let conc = (0..uid).filter(|u| !seen.contains(*u)).count() as u64;
         self.stats.concurrent_pairs += conc;
         let after_sv = doc_sv(&self.nodes[n].doc);
+        let mut carry_lo = BitSet::new();
+        carry_lo.insert(uid);
+        let mut carry_hi = carry_lo.clone();
+        // a replica with a gap in its block store re-sends older blocks in its update events
+        // (they are written from the gap on): upper bound = everything it may hold
+        let gappy = yrs::verif::has_skips(self.nodes[n].doc.transact().store()) || self.nodes[n].had_skips;
+        if primary && gappy {
+            carry_hi.union_with(&self.nodes[n].hi);
+        }
+        if !primary {
+            match self.echo_ctx.take() {
+                Some((lo, hi)) => {
+                    carry_lo.union_with(&lo);
+                    carry_hi.union_with(&hi);
+                }
+                None => {
+                    carry_hi.union_with(&self.nodes[n].hi);
+                }
+            }
+        }
+        self.echo_ctx = None;
         self.uids.push(UidInfo {
             node: n,
             primary,
@@ -577,6 +615,8 @@ impl World {
             after_sv,
             eid: self.cur_eid,
             void: false,
+            carry_lo: carry_lo.clone(),
+            carry_hi: carry_hi.clone(),
         });
         self.nodes[n].lo.insert(uid);
         self.nodes[n].hi.insert(uid);
@@ -593,16 +633,14 @@ impl World {
                     continue;
                 }
                 let id = self.next_msg_id();
-                let mut lo = BitSet::new();
-                lo.insert(uid);
                 self.msg_seq += 1;
                 self.inflight.push(Msg {
                     id,
                     from: n,
                     to,
                     payload: payload.clone(),
-                    lo: lo.clone(),
-                    hi: lo,
+                    lo: carry_lo.clone(),
+                    hi: carry_hi.clone(),
                     kind: MsgKind::Txn(uid),
                     held: false,
                     seq: self.msg_seq,
@@ -695,6 +733,8 @@ impl World {
         count: u32,
     ) -> Result<Vec<Op>, Violation> {
         let pre = crate::monitors::pre_txn(self, n);
+        let hs = yrs::verif::has_skips(self.nodes[n].doc.transact().store());
+        self.nodes[n].had_skips = hs;
         let mut done = Vec::new();
         {
             let doc = self.nodes[n].doc.clone();
@@ -705,7 +745,7 @@ impl World {
             match ops {
                 Some(list) => {
                     for op in list.iter() {
-                        ops::exec_op(&mut txn, op);
+                        crate::seqmon::around_op(&self.cfg.profile, &mut self.mon.sp.seq, &mut txn, op);
                         done.push(op.clone());
                     }
                 }
@@ -715,7 +755,7 @@ impl World {
                         let gcfg = self.cfg.gen.clone();
                         if let Some(op) = gen::gen_op(&mut self.rng, &view, &gcfg, &mut self.tags) {
                             self.cur_ops.push(op.clone());
-                            ops::exec_op(&mut txn, &op);
+                            crate::seqmon::around_op(&self.cfg.profile, &mut self.mon.sp.seq, &mut txn, &op);
                             done.push(op);
                         }
                     }
@@ -761,6 +801,7 @@ impl World {
             );
         }
         let pre = crate::monitors::pre_txn(self, n);
+        let pre_skips = yrs::verif::has_skips(self.nodes[n].doc.transact().store());
         if let Err(e) = apply_payload(&self.nodes[n].doc, &msg.payload, enc) {
             return Err(viol(
                 "net.apply",
@@ -770,9 +811,41 @@ impl World {
                 ),
             ));
         }
+        let (lo_before, hi_before) = (self.nodes[n].lo.clone(), self.nodes[n].hi.clone());
         self.nodes[n].lo.union_with(&msg.lo);
         self.nodes[n].hi.union_with(&msg.hi);
         self.exposed.union_with(&msg.hi);
+        // The update this replica emits now re-sends the blocks it has just integrated. If it had
+        // no stash before and has none now, and its block store has no gap, those are exactly the
+        // blocks of the delivered message.
+        let clean_after = {
+            let t = self.nodes[n].doc.transact();
+            !t.has_missing_updates() && !yrs::verif::has_skips(t.store())
+        };
+        // Deletions are not attributable to one update (two updates may delete the same element, and
+        // the echo only carries what was newly deleted): no lower-bound credit then.
+        let insert_only = Update::decode_v1(&msg.payload.v1)
+            .map(|u| u.delete_set().is_empty())
+            .unwrap_or(false);
+        self.echo_ctx = if !pre.missing && !pre_skips && clean_after && insert_only {
+            // ... that were new to this replica: it certainly re-sends what it certainly did not
+            // have, and possibly what it possibly did not have
+            let mut lo = BitSet::new();
+            for v in msg.lo.iter() {
+                if !hi_before.contains(v) {
+                    lo.insert(v);
+                }
+            }
+            let mut hi = BitSet::new();
+            for v in msg.hi.iter() {
+                if !lo_before.contains(v) {
+                    hi.insert(v);
+                }
+            }
+            Some((lo, hi))
+        } else {
+            None
+        };
         let uid = self.collect_emission(n, false)?;
         crate::monitors::post_txn(
             self,
